@@ -35,6 +35,16 @@ def gen_values(rng, n, vtype):
     raise ValueError(vtype)
 
 
+def gen_shuffle(rng, none_weight=2):
+    """A shuffle option: off, True, or an integer seed -- including the edge seeds 0 and 1."""
+    r = rng.random()
+    if r < 0.07:
+        return 0
+    if r < 0.12:
+        return 1
+    return rng.choice([False] * none_weight + [True, rng.randint(2, 9999)])
+
+
 def gen_vtype(rng, allow_mixed=False, exotic=False):
     r = rng.random()
     if exotic and r < 0.25:
@@ -78,14 +88,21 @@ def gen_constants(rng, nmax=3, exclude=()):
     return out
 
 
-def gen_cases(rng, nargs=(1, 4), ncases=(1, 8), names=None, per_arg_types=None, exotic=False):
+def gen_cases(rng, nargs=(1, 4), ncases=(1, 8), names=None, per_arg_types=None, exotic=False, unsortable=0.0):
     """Distinct cases over k arguments; per argument a homogeneous (sortable) value type.
     Values are drawn from a small pool per argument so that cases share coordinates."""
     k = rng.randint(*nargs)
     names = list(names)[:k] if names else rng.sample(ARG_POOL, k)
     pools = {}
+    mixed_arg = rng.choice(names) if rng.random() < unsortable else None
     for a in names:
         vt = (per_arg_types or {}).get(a) or gen_vtype(rng, exotic=exotic)
+        if a == mixed_arg:
+            # one argument whose values mix numbers and strings (e.g. chi in {8, 16, 'exact'}): its union cannot be
+            # sorted, so the order along that axis is not specified -- only that every result sits at its own label
+            vals = gen_values(rng, rng.randint(2, 4), "int")
+            pools[a] = [v if i % 2 == 0 else "s%d" % v for i, v in enumerate(vals)]
+            continue
         if vt == "tuple":
             vt = "npint"          # (heterogeneous tuples are not sortable: no specified axis order)
         pools[a] = gen_values(rng, rng.randint(1, 2) if vt == "bool" else rng.randint(1, 4), vt)
